@@ -25,6 +25,7 @@ import (
 	"github.com/btcsuite/btcutil/base58"
 
 	"github.com/hyperledger/aries-framework-go/component/kmscrypto/crypto/primitive/bbs12381g2pub"
+	"github.com/hyperledger/aries-framework-go/pkg/doc/cm"
 	"github.com/hyperledger/aries-framework-go/component/kmscrypto/doc/jose"
 	"github.com/hyperledger/aries-framework-go/component/kmscrypto/doc/util/fingerprint"
 	"github.com/hyperledger/aries-framework-go/component/kmscrypto/doc/util/kmsdidkey"
@@ -332,6 +333,8 @@ func c03Run(input string) string {
 		return c03SDJWT(f[1], k, r)
 	case "presexch":
 		return c03PresExch(f[1], k, r)
+	case "cm":
+		return c03Manifest(f[1], k, r)
 	case "proto":
 		return c03Proto(f[1], k, r)
 	case "claims":
@@ -697,6 +700,36 @@ func c03PresExch(variant string, k, r int) string {
 	return "err"
 }
 
+// credential manifests (they come from the issuer): validation and resolution against a credential / a response
+func c03Manifest(variant string, k, r int) string {
+	manifest := `{"id":"m1","version":"0.1.0","issuer":{"id":"did:example:123","name":"Example Authority","styles":{"thumbnail":{"uri":"http://example.org/logo.png","alt":"logo"},"background":{"color":"#ff0000"},"text":{"color":"#d4d400"}}},` +
+		`"output_descriptors":[{"id":"od1","schema":"https://www.w3.org/2018/credentials/v1","display":{"title":{"path":["$.title","$.vc.title"],"schema":{"type":"string"},"fallback":"A title"},` +
+		`"subtitle":{"path":["$.minor"],"schema":{"type":"string"},"fallback":""},"description":{"text":"A description"},` +
+		`"properties":[{"path":["$.credentialSubject.name"],"schema":{"type":"string"},"fallback":"-","label":"name"},{"path":["$.credentialSubject.id"],"schema":{"type":"string","format":"uri"},"fallback":"-","label":"id"}]},` +
+		`"styles":{"hero":{"uri":"http://example.org/hero.png","alt":"hero"},"background":{"color":"#ff0000"},"text":{"color":"#d4d400"}}}],` +
+		`"format":{"ldp_vc":{"proof_type":["Ed25519Signature2018"]}}}`
+	vcJSON := `{"@context":["https://www.w3.org/2018/credentials/v1"],"id":"http://example.edu/credentials/1","type":["VerifiableCredential"],"issuer":"did:example:i","issuanceDate":"2020-01-01T00:00:00Z","title":"T","credentialSubject":{"id":"did:example:s","name":"Alice"}}`
+	if variant == "manifest" {
+		manifest = string(c03JSON([]byte(manifest), k, r))
+	} else {
+		vcJSON = string(c03JSON([]byte(vcJSON), k, r))
+	}
+	m := &cm.CredentialManifest{}
+	if err := m.UnmarshalJSON([]byte(manifest)); err != nil {
+		return "err"
+	}
+	_, e1 := m.ResolveCredential("od1", cm.RawCredentialToResolve([]byte(vcJSON)))
+	var e2 error
+	if vc, err := verifiable.ParseCredential([]byte(vcJSON), verifiable.WithDisabledProofCheck(), verifiable.WithCredDisableValidation(),
+		verifiable.WithJSONLDDocumentLoader(c20Loader)); err == nil {
+		_, e2 = m.ResolveCredential("od1", cm.CredentialToResolve(vc))
+	}
+	if e1 == nil && e2 == nil {
+		return "ok"
+	}
+	return "err"
+}
+
 // inbound handlers of the protocol services on confused messages
 func c03Proto(variant string, k, r int) string {
 	sp := mem.NewProvider()
@@ -831,8 +864,10 @@ func c03Gen(r *Rng, tier string) []string {
 		case x < 17:
 			if r.N(3) > 0 {
 				entry, variant = "claims", r.Pick([]string{"vc", "vc", "vp", "vp", "jwt"})+","+r.Pick([]string{"none", "ed"})
-			} else {
+			} else if r.Bool() {
 				entry, variant = "presexch", r.Pick([]string{"def", "vc"})
+			} else {
+				entry, variant = "cm", r.Pick([]string{"manifest", "manifest", "vc"})
 			}
 		default:
 			switch r.N(5) {
